@@ -8,6 +8,7 @@ mod cmd_vector;
 mod cmd_table;
 mod cmd_oracle;
 mod cmd_sample;
+mod cmd_edge;
 mod scalars;
 
 pub fn f(b: u64) -> f64 {
@@ -54,6 +55,7 @@ fn main() {
         "table" => cmd_table::run(&input),
         "oracle" => cmd_oracle::run(&input),
         "sample" => cmd_sample::run(&input),
+        "edge" => cmd_edge::run(&input),
         _ => panic!("unknown command"),
     };
     println!("\n@@JSON@@{}", serde_json::to_string(&out).unwrap());
